@@ -50,6 +50,8 @@ GROUPS += [
     Group(name="C05/Memory.write1[bounded]", unity="C05/u_mem.cpp", entry="h_mem_write1", functions=MEMF, unwind=3,
           bounded="one write into a fresh image (1 page), every address/data/marker symbolic, real 64 KiB pages; page walk closed by unwinding assertions",
           extra_cbmc=["--arrays-uf-always"], timeout=2400, mem_gb=28, tier="thorough"),
+    Group(name="C05/MemoryPage.minmax", unity="C05/u_mem.cpp", entry="h_page_minmax", functions=[("MemoryPage::set_data", "core/MemoryPage.h", "harness (loop-free, all offsets)"), ("MemoryPage::set_debug", "core/MemoryPage.h", "harness")],
+          unwind=3, extra_cbmc=["--arrays-uf-always"], timeout=900, mem_gb=20),
     Group(name="C05/Memory.write16[bounded]", unity="C05/u_mem.cpp", entry="h_mem_w16", functions=[("Memory::write16", "core/Memory.cpp", "harness, bounded page list"), ("Memory::read16", "core/Memory.cpp", "harness, bounded page list")],
           unwind=4, bounded=MEMB, extra_cbmc=["--arrays-uf-always"], timeout=900, mem_gb=28),
 ]
